@@ -882,7 +882,12 @@ def check_replace(kind: str, before_flat: tuple, got: tuple, spec: list, o: Outc
             elif has_new:
                 return '%s:new-op-on-wrong-qudit' % kind
             if q in loc and q in oldloc:
-                ib = min(i for i, e in enumerate(before_flat[q]) if e[0] in ots)
+                slots = [i for i, e in enumerate(before_flat[q]) if e[0] in ots]
+                if not slots:
+                    # the old op was a block whose body is idle on this qudit: it has no entry on this
+                    # timeline, so there is no slot to compare (the order of the other ops is checked above)
+                    continue
+                ib = min(slots)
                 # slot index ignoring nothing: position among all entries must be equal
                 # when counted over ops that exist both before and after
                 nb = len([e for e in before_flat[q][:ib] if e[0] not in oldtags])
